@@ -118,6 +118,12 @@ func checkC01(c *CheckCtx) error {
 	if err := c.repro(hugeLine()...); err != nil {
 		return err
 	}
+	if err := c.repro(symlinkedSnapFile()...); err != nil {
+		return err
+	}
+	if err := c.repro(crlfCheckout()...); err != nil {
+		return err
+	}
 	// a run whose Clean legitimately rewrites files (sorting, pruning) in between: the recorded
 	// values must still replay in a following read-only run
 	return c.randomClean(c.pick(60, 1000), "w", []string{"default", "clean", "update"},
@@ -171,6 +177,21 @@ func checkC03(c *CheckCtx) error {
 		return err
 	}
 	return c.randomFraming(c.pick(160, 3000), allAPIs, []string{"default", "ci", "update", "other"}, 0.4, "r")
+}
+
+// symlinkedSnapFile: the snapshot file is a symbolic link to a well-formed file kept elsewhere (a
+// shared golden directory, an annexed or content-addressed store): recorded values replay.
+func symlinkedSnapFile() []*Scenario {
+	sc := &Scenario{ID: "symfile", Configs: stdConfigs(), Program: []string{"TestA", "TestB"}}
+	sc.Init = append(sc.Init,
+		InitFile{P: "store/golden.snap", Content: []byte("\n[TestA - 1]\nalpha\n---\n\n[TestB - 1]\nbeta\nsecond\n---\n"), Role: "other"},
+		InitFile{P: "snaps/main_test.snap", Content: []byte("../store/golden.snap"), Role: "symlink", Owner: "multi"})
+	steps := []*Step{{Op: "begin", Name: "TestA"}, {Op: "match", Name: "TestA", API: "snapshot", Cfg: "c", Val: strVal("alpha")}, {Op: "end", Name: "TestA"},
+		{Op: "begin", Name: "TestB"}, {Op: "match", Name: "TestB", API: "snapshot", Cfg: "c", Val: strVal("beta\nsecond")}, {Op: "end", Name: "TestB"}}
+	sc.Procs = append(sc.Procs, &Proc{Spec: procSpec("ci"), Steps: steps})
+	sc.Procs = append(sc.Procs, &Proc{Spec: procSpec("default"), Steps: steps})
+	sc.Note = "the snapshot file is a symbolic link to a well-formed file: read-only and default-mode replay"
+	return []*Scenario{sc}
 }
 
 // crlfCheckout: a snapshot file that was checked out with CRLF line endings still addresses the
